@@ -69,6 +69,7 @@ func init() {
 			{Name: "sp-header-and-framing-all-protocols", Mode: "enum", Reset: kit.ResetGlobals, Body: wireAllProtocols, NeedCounters: []string{"header-exact", "frame-exact"}},
 			{Name: "full-duplex-framing", Mode: "sched", Bound: map[string]int{"quick": 2, "thorough": 3}[tier], Reset: kit.ResetGlobals, Body: fullDuplex},
 			{Name: "frames-arrive-while-a-write-is-stalled", Mode: "enum", Reset: kit.ResetGlobals, Body: duplexStalled, NeedCounters: []string{"stalled-write-exact"}},
+			{Name: "conformant-peer-beside-truncated-or-stalled-handshakes", Mode: "enum", Reset: kit.ResetGlobals, Body: hsTruncated, NeedCounters: []string{"stalled-does-not-delay-others"}},
 			{Name: "handshake-aborted-then-conformant-peer", Mode: "enum", Reset: kit.ResetGlobals, Body: c13.TCPAborted},
 			{Name: "two-connections-one-stalled-framing", Mode: "enum", Reset: kit.ResetGlobals, Body: stalledFraming, NeedCounters: []string{"stalled-stream-exact"}},
 		}
@@ -882,6 +883,9 @@ func limitAfterListen() {
 // the connection); buffers of the same pool class are allocated and filled by the application
 // meanwhile; a second peer connects and the request is transmitted again.  What the second peer
 // reads is exactly the frame of the original request: same length, same bytes.
+// WriteFailsThenRetransmit is also run under C04 (the retransmission is byte-identical).
+func WriteFailsThenRetransmit() { writeFailsThenRetransmit() }
+
 func writeFailsThenRetransmit() {
 	pickScheme()
 	size := []int{20, 200, 1000, 5000}[kit.ChooseFree(4)]
